@@ -196,7 +196,7 @@ def stress_run(arg):
                         pass
         th_ = threading.Thread(target=drain)
         th_.start()
-    xargs = (["--nullargv"] if opts.get("nullargv") else []) + (["--canary"] if opts.get("canary") else []) + (["--stack", str(opts["stack"])] if opts.get("stack") else [])
+    xargs = (["--ancestor", opts["ancestor"]] if opts.get("ancestor") else []) + (["--nullargv"] if opts.get("nullargv") else []) + (["--canary"] if opts.get("canary") else []) + (["--stack", str(opts["stack"])] if opts.get("stack") else [])
     r = subprocess.run([exe, "--mount", "%s:%s" % (conf, SYSCONF), "--threads", str(nt), "--calls", str(ncalls), "--seed", str(seed), "--out", os.path.join(work, "issued")] + xargs,
                        env=env, capture_output=True, timeout=1800, cwd=work)
     del keep
@@ -360,6 +360,13 @@ def main():
         sj.append((bld, "plain", rng.choice([4, 16]), 300, FMT, "file", rng.randrange(1, 10**6), root, idx, None, dict(stack=256 * 1024, conf_extra=BIG, canary=True)))
         idx += 1
     sj.append((tbld, "tsan", 16, 200, FMT, "file", rng.randrange(1, 10**6), root, idx, None, dict(nullargv=True)))
+    idx += 1
+    # the threads run below an ancestor that is the LAST name of a long exclude_spawns_of list: every call must be dropped
+    progs = ",".join("prog%d" % j for j in range(110))
+    for i in range(3 if tr == "quick" else 30):
+        sj.append((bld, "plain", rng.choice([8, 32]), 1500, FMT, "file", rng.randrange(1, 10**6), root, idx, ("exclude_spawns_of:%s,listedanc" % progs, "drop"), dict(ancestor="listedanc")))
+        idx += 1
+    sj.append((bld, "plain", 16, 1000, FMT, "file", rng.randrange(1, 10**6), root, idx, ("exclude_spawns_of:%s,listedanc" % progs, "log"), dict(ancestor="otheranc")))
     idx += 1
     # (c) non-thread-safe build, single-threaded use
     nbld = vbuild.build("plain-nts")
